@@ -47,12 +47,29 @@ def gen_dag(rng, n=10, prefix='N'):
         elif r < 0.40:
             mem = []
             used = set()
-            for j in range(rng.randint(1, 3)):
+            own = []
+            for j in range(rng.randint(1, 4)):
+                # an enumerator may use earlier enumerators of its own enum
+                saved = list(enumerators)
+                enumerators.extend(own)
                 e, v = expr()
+                del enumerators[:]
+                enumerators.extend(saved)
+                if own and rng.random() < 0.5:
+                    # own earlier enumerator first, then a name defined elsewhere
+                    on, ov = rng.choice(own)
+                    pool = [(n_, v_) for n_, v_ in consts + saved if v_ <= 9]
+                    if pool and rng.random() < 0.8:
+                        xn, xv = rng.choice(pool)
+                    else:
+                        xv = rng.randint(1, 3)
+                        xn = str(xv)
+                    e, v = '%s + %s' % (on, xn), ov + xv
                 if v in used:
                     continue
                 used.add(v)
                 mem.append(('%s_e%d' % (name, j), e, v))
+                own.append(('%s_e%d' % (name, j), v))
             sc.decls.append(S.Enum(name, [(n_, e) for n_, e, _ in mem]))
             enumerators.extend((n_, v) for n_, _, v in mem)
             fixed_types.append(name)
